@@ -3,7 +3,7 @@
    a lemma of IterInv.v, with Print Assumptions beneath. *)
 From Coq Require Import List Permutation Bool.
 Import ListNotations.
-Require Import Aiuti.Iter Aiuti.IterInv.
+Require Import Aiuti.Iter Aiuti.IterInv Aiuti.Case_C18 Aiuti.Case_C18_Sound.
 
 (* For every source xs, condition stream cs and every order [ops] of next() calls
    on the two iterators (any interleaving, any abandoning): what side sd yielded
@@ -58,6 +58,21 @@ Print Assumptions pull_lazy.
 Theorem exhaust_spec : forall xs, exhaust xs = (seq 0 (length xs), 1).
 Proof. exact exhaust_lemma. Qed.
 Print Assumptions exhaust_spec.
+
+(* The trace monitor used on implementation traces (Case_C18.ok) decides the
+   property: any observed trace it accepts satisfies the partition statement,
+   pulls each source element once in order, never past the end, and evaluates
+   the condition once per element in order — independently of the model. *)
+Theorem monitor_sound :
+  forall callable xs cs ops observed pl el,
+    ok (CSplit callable xs cs ops observed pl el) = true ->
+    (forall sd,
+       (exists tl, sel xs cs (want sd) = yields sd ops observed ++ tl) /\
+       (stopped sd ops observed = true -> yields sd ops observed = sel xs cs (want sd))) /\
+    pl = seq 0 (last_pulls observed) /\ length pl <= length xs /\
+    el = seq 0 (last_evals observed).
+Proof. exact ok_sound. Qed.
+Print Assumptions monitor_sound.
 
 (* Non-vacuity: a concrete interleaved run that yields on both sides, stops on
    both, with a condition shorter than the source. *)
